@@ -1,0 +1,26 @@
+//! Verification seam (only built with `--cfg watchexec_verif`): in-process access to the CLI's
+//! argument normalisation, state and action logic.
+
+use std::ffi::OsString;
+
+use clap::Parser;
+use miette::Result;
+
+pub use crate::{
+	config::make_config,
+	filterer::WatchexecFilterer,
+	state::{new as new_state, State},
+};
+use crate::args::Args;
+
+/// Parse and normalise an argv exactly as `get_args()` does, minus logging setup and @argfile
+/// expansion.
+pub async fn args_from(argv: Vec<OsString>) -> Result<Args> {
+	let mut args = Args::parse_from(argv);
+	args.output.normalise()?;
+	args.command.normalise().await?;
+	args.filtering.normalise(&args.command).await?;
+	args.events
+		.normalise(&args.command, &args.filtering, args.only_emit_events)?;
+	Ok(args)
+}
